@@ -25,6 +25,7 @@ PROPERTY = 'C08'
 LEVEL = 'fault_enumeration'
 SIGMA = bytes.fromhex('00 01 02 03 04 05 06 09 0A 0C 13 17 18 1E 1F 23 24 30 31 7F 80 81 82 84 A0 BF FF')
 RULE = ('(a) EVERY byte string of length <= L (L=3 quick, 4 thorough) over the 27-octet structural alphabet; (a2) under each of 12 primitive universal tags EVERY content string of length <= 3/4 over a 16-octet content alphabet, and REAL under every first content octet x 17 payloads; '
+        '(a3) boundary magnitudes: declared lengths within -13..+2 (thorough -20..+5) of 2**31, 2**32, 2**63, 2**64 under 12 tag kinds, minimal and padded length form, bare and inside an indefinite SEQUENCE; decimal REALs (NR1/NR2/NR3) with 1..4400 digits and exponents up to 4400 digits; binary REALs with 2..21-octet exponents in every base/scale; 127..5000-octet INTEGER/OID/ENUMERATED/BIT STRING/BOOLEAN/NULL contents; '
         'Sigma = %s; (b) the complete single-mutation neighbourhood (replace each octet by each sigma, delete, '
         'insert sigma, truncate, rewrite first length octet to {00,7F,80,81,84FFFFFFFF,87FF..,88FF..,8901 00..,FE 01..}, empty the content of each constructed element) of every seed encoding '
         '(cover set, all forms, |e| <= 24 quick / 40 thorough); x decoders {BER,CER,DER} x {one-shot on bytes, '
@@ -33,7 +34,7 @@ RULE = ('(a) EVERY byte string of length <= L (L=3 quick, 4 thorough) over the 2
         'distinct = digest of (bytes, decoder, mode, spec).' % SIGMA.hex())
 ASSUMPTIONS = [
     'nesting depth of inputs is bounded by their length (<= 40 octets), so RecursionError is never legitimate',
-    'a per-case SIGALRM watchdog (5 s) turns a hang into a violation',
+    'a per-case watchdog of 5 s of process CPU time (ITIMER_VIRTUAL, so machine load cannot trip it) turns a hang into a violation',
     'CPython 3.12, PYTHONHASHSEED=0',
 ]
 DECODERS = CM.DECODERS
@@ -85,7 +86,7 @@ def judge_result(r):
 
 def run_case(data, decname, spec, streaming):
     """-> (clause, text, site) or None"""
-    signal.setitimer(signal.ITIMER_REAL, 5.0)
+    signal.setitimer(signal.ITIMER_VIRTUAL, 5.0)
     try:
         if not streaming:
             try:
@@ -120,13 +121,13 @@ def run_case(data, decname, spec, streaming):
             return ('read_bound', '%d reads for %d octets' % (core.log.reads, len(data)), 'streaming')
         return None
     except Timeout:
-        return ('hang', 'no termination within 5 s', 'decoder')
+        return ('hang', 'no termination within 5 s of CPU time', 'decoder')
     except RecursionError as e:
         return ('leak:RecursionError', exc_text(e), pyasn1_site(e))
     except Exception as e:
         return ('leak:' + type(e).__name__, exc_text(e), pyasn1_site(e))
     finally:
-        signal.setitimer(signal.ITIMER_REAL, 0)
+        signal.setitimer(signal.ITIMER_VIRTUAL, 0)
 
 
 def alphabet_strings(L):
@@ -248,6 +249,58 @@ def primitive_contents(tier):
             yield b'\x30' + bytes([len(body) + 2, 9, len(body)]) + body
 
 
+def magnitudes(tier):
+    """inputs whose NUMBERS sit at platform boundaries rather than whose shape is odd: declared lengths around
+    2**31, 2**32, 2**63 (sys.maxsize) and 2**64 under every tag kind, long decimal REALs around the float and the
+    int<->str conversion limits, huge binary REAL exponents, long INTEGER/OID contents"""
+    import sys
+    tags = [b'\x04', b'\x24', b'\x30', b'\x31', b'\x03', b'\x02', b'\x09', b'\x0c', b'\xa0', b'\x1f\x81\x00', b'\x05', b'\x06']
+    centres = [2 ** 31, 2 ** 32, sys.maxsize + 1, 2 ** 64]
+    deltas = range(-13, 3) if tier == 'quick' else range(-20, 6)
+    for t in tags:
+        for c in centres:
+            for d in deltas:
+                L = c + d
+                n = (L.bit_length() + 7) // 8
+                for pad in (0, 1):
+                    hdr = t + bytes([0x80 | (n + pad)]) + L.to_bytes(n + pad, 'big')
+                    yield hdr + b'ab'
+                    yield b'\x30\x80' + hdr + b'\x00\x00'
+    def tlv(tag, body):
+        n = len(body)
+        if n < 128:
+            return bytes([tag, n]) + body
+        k = (n.bit_length() + 7) // 8
+        return bytes([tag, 0x80 | k]) + n.to_bytes(k, 'big') + body
+    digits = [b'1' * k + b'0' * z for k in (1, 17, 309) for z in (0, 1, 5, 292, 309, 330)] + [b'1' * 4400, b'1' + b'0' * 4400]
+    exps = [b'0', b'400', b'-400', b'+400', b'99999999', b'-99999999', b'1' + b'0' * 30, b'9' * 4400]
+    for dg in digits:
+        yield tlv(9, b'\x01' + dg)
+        yield tlv(9, b'\x01-' + dg)
+        yield tlv(9, b'\x02' + dg + b'.' + dg[:20])
+        yield tlv(9, b'\x02.' + dg)
+        for ex in exps:
+            if len(dg) > 400 and len(ex) > 10:
+                continue
+            yield tlv(9, b'\x03' + dg + b'E' + ex)
+            yield tlv(9, b'\x03' + dg[:5] + b'.' + dg + b'e' + ex)
+    for first in (0x80, 0x81, 0x82, 0x83, 0x90, 0xa0, 0xb3, 0xc3, 0x8f):
+        for eb in (b'\x7f' + b'\xff' * 7, b'\x80' + b'\x00' * 7, b'\x7f' * 3, b'\x80\x00\x00', b'\x7f\xff', b'\x7f' + b'\xff' * 20):
+            for mant in (b'\x01', b'\xff' * 9, b'', b'\x00'):
+                body = bytes([first]) + (bytes([len(eb)]) if first & 3 == 3 else b'') + eb + mant
+                yield tlv(9, body)
+                yield tlv(0x30, tlv(9, body))
+    for n in (127, 128, 255, 256, 5000):
+        yield tlv(2, b'\x7f' * n)
+        yield tlv(2, b'\x80' + b'\x00' * n)
+        yield tlv(6, b'\x2b' + b'\xff' * n + b'\x01')
+        yield tlv(6, b'\x2b' + b'\xff' * n)
+        yield tlv(10, b'\xff' * n)
+        yield tlv(3, b'\x07' + b'\xff' * n)
+        yield tlv(1, b'\x01' * n)
+        yield tlv(5, b'\x00' * n)
+
+
 def spec_list(tier, part):
     if tier == 'quick' and part == 'a':
         return SPECS[:5]
@@ -256,7 +309,7 @@ def spec_list(tier, part):
 
 def shard(tier, i, n, seed):
     R = Result()
-    signal.signal(signal.SIGALRM, _alarm)
+    signal.signal(signal.SIGVTALRM, _alarm)
     L = 3 if tier == 'quick' else 4
     specs_a = [(nm, (B.to_spec(T) if T else None), T) for nm, T in spec_list(tier, 'a')]
     specs_b = [(nm, (B.to_spec(T) if T else None), T) for nm, T in spec_list(tier, 'b')]
@@ -275,6 +328,12 @@ def shard(tier, i, n, seed):
         if (idx + seed) % n != i:
             continue
         guarded(R, lambda: run_all(data, 'primitive', None, specs_p, R, idx), {'data': data, 'origin': 'primitive'}, {'primitive'}, idx)
+    # (a3) boundary magnitudes
+    for data in magnitudes(tier):
+        idx += 1
+        if (idx + seed) % n != i:
+            continue
+        guarded(R, lambda: run_all(data, 'magnitude', None, specs_b, R, idx), {'data': data, 'origin': 'magnitude'}, {'magnitude'}, idx)
     # (b) mutation neighbourhoods
     for name, form, T, e in seeds(tier):
         own = ('own:' + name, B.to_spec(T), T)
@@ -308,7 +367,7 @@ def run_all(data, origin, seed_id, specs, R, idx):
 
 
 def replay(case):
-    signal.signal(signal.SIGALRM, _alarm)
+    signal.signal(signal.SIGVTALRM, _alarm)
     T = case['T']
     spec = B.to_spec(T) if T else None
     bad = run_case(case['data'], case['dec'], spec, case['streaming'])
